@@ -119,7 +119,7 @@ Tick(cmdrdy, bready, rready, pulse) ==
       ce == ~cmd_valid \/ (cmdrdy /\ cmd_last)
       \* ------------------------------------------------------------------ write data
       wqueue == cmd_acc /\ wcmd                                     \* w_buffer_queue
-      wsend == wlvl # 0 \/ wqueue                                   \* w_buffer_send
+      wsend == wlvl # 0                                             \* w_buffer_send (fix 705be07: not in the command's own cycle)
       wd_valid == wfo # 0 /\ wsend                                  \* port.wdata.valid
       wsrc_ready == pw /\ wsend                                     \* w_buffer.source.ready
       wdeq == wfo # 0 /\ wsrc_ready                                 \* w_buffer_dequeue
